@@ -41,22 +41,46 @@ fn run_g<R: dashu_float::round::ErrorBounds, const B: dashu_int::Word>(
     })
 }
 
-fn run(mode: &str, base: usize, val: Result<(IBig, isize), bool>, prec: usize) -> Res {
+/// (round 6) `eb.bounds <mode> d:<base> <signif> d:<exp> d:<precision>`: `<R as ErrorBounds>::error_bounds(&f)` called DIRECTLY
+/// (float/src/round.rs), printed as exact values `L R incl_L incl_R` (L, R as reduced fractions through `RBig::try_from`).
+fn bounds_g<R: dashu_float::round::ErrorBounds, const B: dashu_int::Word>(
+    val: Result<(IBig, isize), bool>,
+    prec: usize,
+) -> Res {
+    let (s, e) = match val {
+        Ok(v) => v,
+        Err(_) => return Err("bad-arg eb.bounds of an infinity".into()),
+    };
+    catch(|| {
+        let f = dashu_float::FBig::<R, B>::from_repr(
+            dashu_float::Repr::<B>::new(s.clone(), e),
+            dashu_float::Context::<R>::new(prec),
+        );
+        let (l, r, il, ir) = R::error_bounds(&f);
+        let q = |x: dashu_float::FBig<R, B>| {
+            let v = RBig::try_from(x).unwrap();
+            format!("{}/{}", f_ibig(v.numerator()), f_ubig(v.denominator()))
+        };
+        format!("{} {} {} {}", q(l), q(r), il, ir)
+    })
+}
+
+fn run_op(bounds: bool, mode: &str, base: usize, val: Result<(IBig, isize), bool>, prec: usize) -> Res {
     use dashu_float::round::mode::*;
     macro_rules! by_base {
         ($R:ty) => {
             match base {
-                2 => run_g::<$R, 2>(val, prec),
-                3 => run_g::<$R, 3>(val, prec),
-                4 => run_g::<$R, 4>(val, prec),
-                5 => run_g::<$R, 5>(val, prec),
-                7 => run_g::<$R, 7>(val, prec),
-                8 => run_g::<$R, 8>(val, prec),
-                10 => run_g::<$R, 10>(val, prec),
-                16 => run_g::<$R, 16>(val, prec),
-                36 => run_g::<$R, 36>(val, prec),
-                100 => run_g::<$R, 100>(val, prec),
-                255 => run_g::<$R, 255>(val, prec),
+                2 => if bounds { bounds_g::<$R, 2>(val, prec) } else { run_g::<$R, 2>(val, prec) },
+                3 => if bounds { bounds_g::<$R, 3>(val, prec) } else { run_g::<$R, 3>(val, prec) },
+                4 => if bounds { bounds_g::<$R, 4>(val, prec) } else { run_g::<$R, 4>(val, prec) },
+                5 => if bounds { bounds_g::<$R, 5>(val, prec) } else { run_g::<$R, 5>(val, prec) },
+                7 => if bounds { bounds_g::<$R, 7>(val, prec) } else { run_g::<$R, 7>(val, prec) },
+                8 => if bounds { bounds_g::<$R, 8>(val, prec) } else { run_g::<$R, 8>(val, prec) },
+                10 => if bounds { bounds_g::<$R, 10>(val, prec) } else { run_g::<$R, 10>(val, prec) },
+                16 => if bounds { bounds_g::<$R, 16>(val, prec) } else { run_g::<$R, 16>(val, prec) },
+                36 => if bounds { bounds_g::<$R, 36>(val, prec) } else { run_g::<$R, 36>(val, prec) },
+                100 => if bounds { bounds_g::<$R, 100>(val, prec) } else { run_g::<$R, 100>(val, prec) },
+                255 => if bounds { bounds_g::<$R, 255>(val, prec) } else { run_g::<$R, 255>(val, prec) },
                 _ => Err("bad-arg base".into()),
             }
         };
@@ -82,9 +106,10 @@ pub fn dispatch(op: &str, args: &[&str]) -> Option<Res> {
         if legacy_base && (!inf || prec0) {
             return None;
         }
-    } else if op != "s2.fromfloat" {
+    } else if op != "s2.fromfloat" && op != "eb.bounds" {
         return None;
     }
+    let bounds = op == "eb.bounds";
     let r: Res = (|| -> Res {
         let mode = arg(args, 0)?;
         let base = p_usize(arg(args, 1)?)?;
@@ -96,7 +121,7 @@ pub fn dispatch(op: &str, args: &[&str]) -> Option<Res> {
             "-inf" => Err(true),
             _ => Ok((p_ibig(sg)?, exp)),
         };
-        run(mode, base, val, prec)
+        run_op(bounds, mode, base, val, prec)
     })();
     Some(r)
 }
